@@ -448,6 +448,13 @@ func (bc *boundsCtx) lenLB(x ssa.Value, b *ssa.BasicBlock) int64 {
 				up(1) // Split with a non-empty separator returns at least one element
 			}
 		}
+		if name == "strings.SplitN" && len(v.Call.Args) == 3 {
+			if sep, ok := strConst(v.Call.Args[1]); ok && sep != "" {
+				if n, isK := intConst(v.Call.Args[2]); isK && n != 0 {
+					up(1) // SplitN with a non-empty separator and a non-zero count returns at least one element
+				}
+			}
+		}
 	case *ssa.Phi:
 		// minimum over edges
 		m := int64(posInf)
